@@ -43,9 +43,9 @@ func allJobs(c *vf.Ctx) []job {
 	// every configuration again with a mismatched unlock injected at a seeded reachable state
 	n := len(jobs)
 	for _, j := range jobs[:n] {
-		k := c.Pick(12, 60)
+		k := c.Pick(8, 40)
 		if len(j.Cfg.Programs) > 2 {
-			k = c.Pick(16, 40)
+			k = c.Pick(10, 30)
 		}
 		jobs = append(jobs, job{Cfg: j.Cfg, Mode: "probe", N: k})
 	}
@@ -492,7 +492,7 @@ func run(c *vf.Ctx) {
 	}
 	finish("wait child (special scenarios)", runChild(c, vf.ChildOpts{Name: "waits", Args: []string{"0", strconv.Itoa(nSpecial), "plain"}, Timeout: 15 * time.Minute}))
 	// ---- scripted arrival orders
-	nChunks := c.Pick(16, 48)
+	nChunks := c.Pick(32, 64)
 	for k := 0; k < nChunks; k++ {
 		k := k
 		spawn(func() {
@@ -552,10 +552,10 @@ func run(c *vf.Ctx) {
 	c.Require("arrival_orders:dag", c.Pick(5000, 200000))
 	c.Require("lock_requests_granted", c.Pick(10000, 400000))
 	c.Require("parked_request_observations", c.Pick(10000, 400000))
-	c.Require("mismatched_unlock_probes:starving", c.Pick(800, 5000))
-	c.Require("mismatched_unlock_probes:dag", c.Pick(5000, 30000))
-	c.Require("mismatched_unlock_probes_with_parked_requests", c.Pick(1500, 10000))
-	c.Require("mismatched_unlock_probes_panicked", c.Pick(3000, 20000))
+	c.Require("mismatched_unlock_probes:starving", c.Pick(600, 4000))
+	c.Require("mismatched_unlock_probes:dag", c.Pick(4000, 25000))
+	c.Require("mismatched_unlock_probes_with_parked_requests", c.Pick(1000, 8000))
+	c.Require("mismatched_unlock_probes_panicked", c.Pick(2500, 15000))
 	c.Require("arrival_orders_with_repeated_ids_in_one_RLock", c.Pick(2000, 50000))
 	c.Require("string_vs_model_checks", c.Pick(20000, 500000))
 	c.Require("waiter_observed_parked", c.Pick(3000, 50000))
